@@ -202,6 +202,11 @@ func vC04Queries(e *vEnv, docs []vDoc, vocab []string) []vBase {
 		}
 		qs = append(qs, vBase{"dangling-tail:" + d.key, pre + pad + strings.TrimRight(string(d.raw), " \n\r\t") + tails[k%len(tails)]})
 	}
+	// inputs that sit on the scorer's special rules (scoring.go: phrases that may not
+	// be introduced, lesser/library, version numbers): a license text with exactly
+	// that word removed or exchanged.  The answer may be a match or none - it must be
+	// the same answer every time.
+	qs = append(qs, vRuleQueries(e, docs)...)
 	// duplicates under two names planted together with notices: more ties
 	for k := 0; k < e.pick(20, 120); k++ {
 		d := docs[r.Intn(len(docs))]
@@ -209,6 +214,91 @@ func vC04Queries(e *vEnv, docs []vDoc, vocab []string) []vBase {
 			continue
 		}
 		qs = append(qs, vBase{"tie:dup+notice:" + d.key, vInsertNotices(r, vWithNL(string(d.raw))+vOOVBlock(r, 1)+vWithNL(string(d.raw)), 3)})
+	}
+	return qs
+}
+
+// vRulePhrases: (license-name prefix, phrase) pairs the scorer treats specially.
+var vRulePhrases = [][2]string{
+	{"AGPL", "affero"}, {"Atmel", "atmel"}, {"Apache", "apache"}, {"BSD", "bsd"},
+	{"BSD-3-Clause-Attribution", "acknowledgment"}, {"bzip2", "seward"},
+	{"GPL-2.0-with-GCC-exception", "gcc linking exception"}, {"GPL-2.0-with-autoconf-exception", "autoconf exception"},
+	{"GPL-2.0-with-bison-exception", "bison exception"}, {"GPL-2.0-with-classpath-exception", "class path exception"},
+	{"GPL-2.0-with-font-exception", "font exception"}, {"LGPL-2.0", "library"}, {"ImageMagick", "imagemagick"},
+	{"PHP", "php"}, {"SISSL", "sun standards"}, {"SGI-B", "silicon graphics"}, {"SunPro", "sunpro"}, {"X11", "x consortium"},
+}
+
+// vReplaceFold replaces every case-insensitive occurrence of old (ASCII) in s.
+func vReplaceFold(s, old, new string) (string, int) {
+	low := strings.ToLower(s)
+	if len(low) != len(s) {
+		return s, 0
+	}
+	var b strings.Builder
+	n, i := 0, 0
+	for {
+		j := strings.Index(low[i:], old)
+		if j < 0 {
+			break
+		}
+		b.WriteString(s[i : i+j])
+		b.WriteString(new)
+		i += j + len(old)
+		n++
+	}
+	b.WriteString(s[i:])
+	return b.String(), n
+}
+
+func vRuleQueries(e *vEnv, docs []vDoc) []vBase {
+	var qs []vBase
+	perFamily := e.pick(3, 12)
+	limit := e.pick(6000, 40000)
+	name := func(key string) string {
+		f := strings.Split(key, "/")
+		if len(f) >= 2 {
+			return f[1]
+		}
+		return key
+	}
+	for _, pp := range vRulePhrases {
+		n := 0
+		for _, d := range docs {
+			if n >= perFamily {
+				break
+			}
+			if !strings.HasPrefix(name(d.key), pp[0]) || len(d.raw) > limit {
+				continue
+			}
+			// the phrase removed, and the phrase replaced by a foreign word
+			for v, repl := range []string{"", "zqwwvvkk"} {
+				t, k := vReplaceFold(string(d.raw), pp[1], repl)
+				if k == 0 {
+					continue
+				}
+				qs = append(qs, vBase{fmt.Sprintf("rule:phrase-%d:%s:%s", v, pp[1], d.key), t})
+				n++
+			}
+		}
+	}
+	swaps := [][3]string{{"LGPL", "lesser", "library"}, {"LGPL", "library", "lesser"}, {"LGPL", "lesser", ""}, {"GPL", "general public", "lesser general public"},
+		{"", "version 2", "version 3"}, {"", "version 3", "version 2"}, {"", "version 1.1", "version 2.0"}, {"", "version 2.0", "version 1.0"}}
+	for _, sw := range swaps {
+		n := 0
+		for _, d := range docs {
+			if n >= perFamily {
+				break
+			}
+			if !strings.Contains(name(d.key), sw[0]) || len(d.raw) > limit {
+				continue
+			}
+			t, k := vReplaceFold(string(d.raw), sw[1], sw[2])
+			if k == 0 {
+				continue
+			}
+			qs = append(qs, vBase{fmt.Sprintf("rule:swap:%s>%s:%s", sw[1], sw[2], d.key), t})
+			n++
+		}
 	}
 	return qs
 }
@@ -325,7 +415,7 @@ func TestVerifC04(t *testing.T) {
 				cs.violation("repeat-differs", "same bytes, same classifier (%s), second call after other calls differs:\n first:  %s\n second: %s", cfg.name, first, s)
 				return
 			}
-			if strings.HasPrefix(q.name, "dangling-tail") {
+			if strings.HasPrefix(q.name, "dangling-tail") || strings.HasPrefix(q.name, "rule:") {
 				// several more rounds: which recycled buffer a call gets is not under the
 				// harness' control
 				for k := 0; k < 6; k++ {
@@ -335,7 +425,7 @@ func TestVerifC04(t *testing.T) {
 						return
 					}
 					if s := vCanonOrdered(rk); s != first {
-						cs.violation("repeat-differs", "same bytes (input ends inside a UTF-8 sequence), same classifier (%s), call %d after matching multi-byte text differs:\n first: %s\n now:   %s", cfg.name, k+3, first, s)
+						cs.violation("repeat-differs", "same bytes, same classifier (%s), call %d after matching multi-byte text differs:\n first: %s\n now:   %s", cfg.name, k+3, first, s)
 						return
 					}
 				}
